@@ -19,9 +19,12 @@ from lib import driver as D
 # "d" of their own - the day of a date - so the depth is read at its place, never searched for)
 END_OF_BLOCK = re.compile(r'^\{"cls":"[A-Z]","d":1,')
 CHUNK = 40000          # events per TLC run, cut at evaluation-block boundaries
-TWINS = {"C06": "andFalseNeedsBoth", "C05": "intDecimalNoPromote", "C08": "addIsSub", "C14": "byteLength", "C13": "toIntegerAcceptsDecimalString", "C09": "weekIs5Days"}
+TWINS = {"C06": "andFalseNeedsBoth", "C05": "intDecimalNoPromote", "C08": "c08twins", "C14": "byteLength", "C13": "toIntegerAcceptsDecimalString", "C09": "weekIs5Days",
+         "C10": "c10twins", "C07": "concatEmptyIsEmpty"}
+# the laws a (composite) wrong variant must make the recorded trace break - each of them, or the trace does not exercise that law
+TWIN_LAWS = {"c08twins": ("arith", "mathfn"), "c10twins": ("setfn",), "concatEmptyIsEmpty": ("concat",)}
 # value laws (eqval/cmpval C05, arith C08, strfn C14): the node whose logged outcome the binding probe corrupts
-VALUE_PROBE = {"C05": ("Equality", "eqval"), "C08": ("Arithmetic", "arith"), "C14": ("Function", "strfn"), "C13": ("Function", "convfn")}
+VALUE_PROBE = {"C05": ("Equality", "eqval"), "C08": ("Arithmetic", "arith"), "C14": ("Function", "strfn"), "C13": ("Function", "convfn"), "C10": ("Function", "setfn")}
 
 
 def record_repo_tests(ctx, out):
@@ -149,8 +152,13 @@ def _extend(ctx, verdicts, by_id, reruns=(), repo_tests=True):
         twin = TWINS.get(ctx.prop)
         if twin:
             tv, _ = judge_trace(ctx, trace, mutant=twin, tag="nodetrace-twin")
-            if any(v["prop"] == ctx.prop for v in tv):
-                ctx.mutants_killed.append("nodetrace:" + twin)
+            need = TWIN_LAWS.get(twin)
+            seen = set(v["law"] for v in tv if v["prop"] == ctx.prop)
+            if (need and all(w in seen for w in need)) or (not need and seen):
+                ctx.mutants_killed.append("nodetrace:" + twin + ("(" + ",".join(need) + ")" if need else ""))
+            elif need and seen:
+                raise D.Inconclusive("node trace: the wrong variant %s is noticed under %s only, not under %s (the trace does not exercise that law)" % (
+                    twin, sorted(seen), sorted(set(need) - seen)))
             else:
                 raise D.Inconclusive("node trace: the wrong variant %s of the reference tables is not noticed on this trace (the trace does not exercise the law)" % twin)
         binding_probe(ctx, trace)
@@ -223,6 +231,16 @@ def value_probe(ctx, trace, kind, law):
         kids.setdefault(d - 1, []).append(r)
         mine = kids.get(d, [])
         valued = lambda vs, t: len(vs) == 1 and vs[0].split(":")[0] in t
+        if kind == "Function" and law == "setfn":
+            # distinct() over logged values: the first item of its outcome is repeated at the end - no longer duplicate-free
+            if not (b.get("k") == kind and b.get("p") == "Distinct" and r["ok"] and 1 <= len(r.get("outv", [])) < 8 and len(r["outv"]) == len(r["out"])
+                    and len(b.get("inv", [])) == len(b.get("in", [])) and all(x.split(":")[0] in ("Integer", "String", "Boolean") for x in b["inv"] + r["outv"])):
+                continue
+            r["out"].append(r["out"][0])
+            r["outv"].append(r["outv"][0])
+            victim = i
+            lines[i] = json.dumps(r, separators=(",", ":")) + "\n"
+            break
         if b.get("k") != kind or not r["ok"] or len(r.get("outv", [])) != 1:
             continue
         if kind == "Equality" and r["cls"] in ("T", "F") and len(mine) == 2 and all(k["ok"] and valued(k["outv"], ("Integer", "Decimal", "String", "Boolean")) for k in mine):
@@ -242,9 +260,16 @@ def value_probe(ctx, trace, kind, law):
         break
     if victim is None:
         raise D.Inconclusive("node trace: no %s node with logged operand values in the first %d events (the value law %s is not exercised)" % (kind, len(lines), law))
+    # the evaluation block of the altered event alone (line numbers of verdicts are relative to the judged part)
+    a = victim
+    while a > 0 and not (json.loads(lines[a])["e"] == "B" and json.loads(lines[a])["d"] == 1):
+        a -= 1
+    z = victim
+    while z < len(lines) - 1 and not END_OF_BLOCK.match(lines[z]):
+        z += 1
     path = ctx.path("nt_probe_value.ndjson")
-    open(path, "w").writelines(lines)
+    open(path, "w").writelines(lines[a:z + 1])
     vs, _ = judge_trace(ctx, path, tag="nodetrace-probe-value")
-    if not any(v["law"] == law and v["line"] == victim + 1 for v in vs):
+    if not any(v["law"] == law and v["line"] == victim - a + 1 for v in vs):
         raise D.Inconclusive("node trace: an altered %s outcome was not reported by the %s law" % (kind, law))
     ctx.extra["node_trace_with_an_altered_value_reported"] = law
